@@ -43,7 +43,10 @@ def check_property(pid, tier="quick", seed=0, write_baseline=False):
     for q in missing:
         verdict["undecided"].append(f"binding failure: {q} not found in the source tree")
     fns = [q for q in fns if q.split("#")[0] in repo.functions]
-    res = run_tasks(task_verify, [(q, None, timeout_ms) for q in fns], cache, [f"verify:{q}:inv:{timeout_ms}" for q in fns])
+    def tmo(q):
+        return max(timeout_ms, reg.contracts[q].extra.get("timeout_ms", 0))
+
+    res = run_tasks(task_verify, [(q, None, tmo(q)) for q in fns], cache, [f"verify:{q}:inv:{tmo(q)}" for q in fns])
     baseline = load_baseline()
     total = discharged = 0
     by_kind = {}
